@@ -104,4 +104,11 @@ theorem C09_sibling_directory_untouched (v : Version) (d : Str) (c : Char) (rest
   rw [under_sibling_false d _ c rest hc rfl] at this
   cases this
 
+/-- **an internal recursive copy or move keeps every level below the copied directory**, whatever
+    the directory is called (a name repeated further down, non-ASCII names) -/
+theorem C09_internal_copy_keeps_levels (base rest dst : Str) (hb : base ≠ []) :
+    logicalPathInDstDirInternal (base ++ '/' :: rest) base dst =
+      parsePath ((if dst.getLast? == some '/' then dst else dst ++ ['/']) ++ rest) :=
+  internal_destination base rest dst hb
+
 end Rocfl.Theorems.C09
